@@ -13,7 +13,7 @@ appended to a trace.  From a trace, `images()` yields every crash image:
 Model: renames/unlinks/creates are atomic and ordered (journalled metadata), unsynced file
 *data* may be lost or torn.  That is the failure model C10 names.
 """
-import os, builtins, io
+import os, builtins, io, errno
 
 
 class HarnessError(Exception):
@@ -26,6 +26,18 @@ class Trace:
         self.enabled = True
         self.fds = {}       # fileno -> fid
         self.nfid = 0
+        self.fault = None   # k: the k-th faultable operation (write/close of a written file, fsync, rename) fails with ENOSPC
+        self.nsite = 0
+        self.fired = None
+
+    def site(self, what):
+        """True if the I/O error is to be injected at this operation"""
+        if not self.enabled: return False
+        self.nsite += 1
+        if self.fault is not None and self.nsite == self.fault:
+            self.fired = what
+            return True
+        return False
 
     def add(self, *op):
         if self.enabled:
@@ -40,6 +52,8 @@ class TFile:
         tr.fds[real.fileno()] = fid
 
     def write(self, data):
+        if self._tr.site('write'):
+            raise OSError(errno.ENOSPC, 'No space left on device (injected)')
         self._tr.add('write', self._fid, bytes(data))
         return self._r.write(data)
 
@@ -49,6 +63,13 @@ class TFile:
     def close(self):
         if not self._r.closed:
             self._tr.fds.pop(self._r.fileno(), None)
+            if self._tr.site('close'):
+                # the flush of the buffered data fails half way: part of it is in the file, close() reports the error
+                self._r.flush()
+                os.ftruncate(self._r.fileno(), os.fstat(self._r.fileno()).st_size // 2)
+                self._r.close()
+                self._tr.add('mark', 'torn-close', self._fid)
+                raise OSError(errno.ENOSPC, 'No space left on device (injected)')
             self._r.close()
             self._tr.add('close', self._fid)
 
@@ -104,6 +125,7 @@ class OsProxy:
     def fsync(self, fd):
         fid = self._tr.fds.get(fd)
         if fid is None: raise HarnessError('fsync on unknown fd')
+        if self._tr.site('fsync'): raise OSError(errno.EIO, 'Input/output error (injected)')
         os.fsync(fd) if False else None     # tmpfs: a real fsync adds nothing; the trace is what counts
         self._tr.add('fsync', fid)
 
@@ -116,10 +138,12 @@ class OsProxy:
     remove = unlink
 
     def rename(self, a, b, **kw):
+        if self._tr.site('rename'): raise OSError(errno.ENOSPC, 'No space left on device (injected)')
         os.rename(a, b, **kw)
         self._tr.add('rename', a, b)
 
     def replace(self, a, b, **kw):
+        if self._tr.site('rename'): raise OSError(errno.ENOSPC, 'No space left on device (injected)')
         os.replace(a, b, **kw)
         self._tr.add('rename', a, b)
 
@@ -147,6 +171,7 @@ def install(module, tr):
     module.os = OsProxy(tr)
 
     def treplace(src, dst):
+        if tr.site('rename'): raise OSError(errno.ENOSPC, 'No space left on device (injected)')
         os.replace(src, dst)
         tr.add('rename', src, dst)
     if hasattr(module, 'replacePath'):
